@@ -218,7 +218,7 @@ func GenType(rt *rapid.T, o TypeOpts) TypeDesc {
 
 // PtrRecvMarshalers: corpus types whose marshal methods have pointer receivers
 // (used only when the value is addressable).
-var PtrRecvMarshalers = map[string]bool{"MPtr": true, "TPtr": true, "SE6": true, "PHold": true, "SAB": true}
+var PtrRecvMarshalers = map[string]bool{"MPtr": true, "TPtr": true, "SE6": true, "PHold": true, "SAB": true, "ArrMPtr": true, "ArrTwice": true, "MArrFirst": true, "SE10": true, "SE11": true}
 
 func hasPtrRecv(d *TypeDesc) bool {
 	found := false
@@ -237,7 +237,7 @@ func genLeaf(rt *rapid.T, o TypeOpts) TypeDesc {
 	if !o.NoCorpus && rapid.IntRange(0, 4).Draw(rt, "corpus") == 0 {
 		for tries := 0; tries < 4; tries++ {
 			n := rapid.SampledFrom(CorpusNames).Draw(rt, "cname")
-			if o.avoid("@"+n) || (o.avoid("shared-ptr-recv") && n == "SAB") || (o.avoid("multiembed") && MultiEmbedCorpus[n]) || (o.avoid("iface") && n == "Shape") || (o.avoid("marshalers") && EncodeOnly[n]) || (o.avoid("embedded") && len(n) > 1 && (n[:2] == "SE" || n == "Deep")) {
+			if o.avoid("@"+n) || (o.avoid("shared-ptr-recv") && (n == "SAB" || n == "ArrTwice" || n == "MArrFirst")) || (o.avoid("string-on-string") && n == "SOpt") || (o.avoid("multiembed") && MultiEmbedCorpus[n]) || (o.avoid("iface") && n == "Shape") || (o.avoid("marshalers") && EncodeOnly[n]) || (o.avoid("embedded") && len(n) > 1 && (n[:2] == "SE" || n == "Deep")) {
 				continue
 			}
 			return TypeDesc{K: "@" + n}
